@@ -90,6 +90,40 @@ pub struct StreamSpec {
 }
 
 #[derive(Clone, Debug, Hash, PartialEq, Eq, Serialize, Deserialize)]
+pub enum LR {
+    Chunk(u32),
+    /// Pending until Wake(n) fires
+    PendingUntil(u8),
+    PendingForever,
+    Eof,
+    Err,
+}
+#[derive(Clone, Debug, Hash, PartialEq, Eq, Serialize, Deserialize)]
+pub enum LW {
+    /// accept at most n (>= 1) bytes of this call
+    AcceptUpTo(u32),
+    PendingUntil(u8),
+    Err,
+}
+#[derive(Clone, Debug, Hash, PartialEq, Eq, Serialize, Deserialize)]
+pub enum LS {
+    Ok,
+    Err,
+    PendingUntil(u8),
+}
+/// One end of a stream is not driven by reader/writer scripts but bridged to a scripted local byte stream
+#[derive(Clone, Debug, Hash, PartialEq, Eq, Serialize, Deserialize)]
+pub struct BridgeSpec {
+    pub stream: u32,
+    pub end: u8,
+    pub read: Vec<LR>,
+    pub write: Vec<LW>,
+    /// the k-th flush call fails
+    pub flush_err_at: Option<u8>,
+    pub shutdown: LS,
+}
+
+#[derive(Clone, Debug, Hash, PartialEq, Eq, Serialize, Deserialize)]
 pub enum AcceptPolicy {
     /// accept forever
     All,
@@ -261,6 +295,8 @@ pub struct Case {
     /// number of quiescence-triggered events that must have fired before the schedule bytes are used (fair sweeps until then)
     #[serde(default)]
     pub sched_phase: u8,
+    #[serde(default)]
+    pub bridges: Vec<BridgeSpec>,
 }
 
 impl Default for BindPolicy {
@@ -285,6 +321,7 @@ impl Default for Case {
             events: vec![],
             schedule: vec![],
             sched_phase: 0,
+            bridges: vec![],
         }
     }
 }
@@ -363,8 +400,8 @@ pub type Mux = Multiplexor<ScriptRng>;
 
 #[derive(Default)]
 pub struct ParkInner {
-    woken: std::collections::HashSet<u8>,
-    wakers: Vec<(u8, std::task::Waker)>,
+    pub woken: std::collections::HashSet<u8>,
+    pub wakers: Vec<(u8, std::task::Waker)>,
 }
 #[derive(Clone, Default)]
 pub struct Parking(pub Rc<RefCell<ParkInner>>);
@@ -681,9 +718,22 @@ pub async fn run_reader(cell: StreamCell, stream: usize, end: usize, ops: Vec<RO
 
 /// streams that the application "keeps" stay alive until the world is torn down
 #[derive(Clone, Default)]
-pub struct Keeper(pub Rc<RefCell<Vec<StreamCell>>>);
+pub struct Keeper(pub Rc<RefCell<Vec<StreamCell>>>, pub Rc<Vec<BridgeSpec>>);
 
 pub fn spawn_end(sp: &Spawner, keep: &Keeper, side: Side, s: MuxStream, stream: usize, end: usize, script: &EndScript, log: &Log, parking: &Parking) {
+    if let Some(b) = keep.1.iter().find(|b| b.stream as usize == stream && b.end as usize == end) {
+        let local = ScriptedLocal::new(b.clone(), log.clone(), parking.clone());
+        let log2 = log.clone();
+        sp.spawn(format!("s{stream}e{end}bridge"), TaskKind::StreamUser(side), async move {
+            let fut = s.into_copy_bidirectional_with_buf(local);
+            let mut fut = std::pin::pin!(fut);
+            let r = fut.as_mut().await;
+            log2.app(AppEv::BridgeDone { stream, result: r.map_err(|e| err_kind(&e)) });
+            // the completed bridge owns the stream: it is dropped with the future (when this task ends)
+            log2.app(AppEv::Dropped { stream, end });
+        });
+        return;
+    }
     let cell: StreamCell = Rc::new(RefCell::new(Some(s)));
     keep.0.borrow_mut().push(cell.clone());
     sp.spawn(
@@ -696,4 +746,167 @@ pub fn spawn_end(sp: &Spawner, keep: &Keeper, side: Side, s: MuxStream, stream: 
         TaskKind::StreamUser(side),
         run_reader(cell, stream, end, script.r.clone(), log.clone(), parking.clone()),
     );
+}
+
+// ------------------------------------------------------------------ scripted local side of a bridge
+
+pub struct ScriptedLocal {
+    spec: BridgeSpec,
+    log: Log,
+    parking: Parking,
+    stream: usize,
+    // read half
+    ri: usize,
+    chunk_left: usize,
+    chunk_buf: Vec<u8>,
+    roff: usize,
+    // write half
+    wi: usize,
+    woff: usize,
+    flushes: u8,
+}
+
+impl ScriptedLocal {
+    pub fn new(spec: BridgeSpec, log: Log, parking: Parking) -> Self {
+        let stream = spec.stream as usize;
+        ScriptedLocal { spec, log, parking, stream, ri: 0, chunk_left: 0, chunk_buf: vec![], roff: 0, wi: 0, woff: 0, flushes: 0 }
+    }
+    fn wait(&self, n: u8, cx: &mut std::task::Context<'_>) -> bool {
+        let mut g = self.parking.0.borrow_mut();
+        if g.woken.contains(&n) {
+            true
+        } else {
+            g.wakers.push((n, cx.waker().clone()));
+            false
+        }
+    }
+    fn io_err(what: &str) -> std::io::Error {
+        std::io::Error::new(std::io::ErrorKind::ConnectionAborted, what.to_string())
+    }
+}
+
+impl AsyncRead for ScriptedLocal {
+    fn poll_read(self: Pin<&mut Self>, _cx: &mut std::task::Context<'_>, _buf: &mut ReadBuf<'_>) -> Poll<std::io::Result<()>> {
+        unreachable!("the bridge uses AsyncBufRead only")
+    }
+}
+
+impl AsyncBufRead for ScriptedLocal {
+    fn poll_fill_buf(self: Pin<&mut Self>, cx: &mut std::task::Context<'_>) -> Poll<std::io::Result<&[u8]>> {
+        let me = self.get_mut();
+        let dir = me.spec.end as usize; // the bridged end writes direction `end`
+        loop {
+            if me.chunk_left > 0 {
+                let start = me.chunk_buf.len() - me.chunk_left;
+                return Poll::Ready(Ok(&me.chunk_buf[start..]));
+            }
+            match me.spec.read.get(me.ri).cloned() {
+                None | Some(LR::PendingForever) => return Poll::Pending,
+                Some(LR::Chunk(n)) => {
+                    me.ri += 1;
+                    let n = n.max(1) as usize;
+                    me.chunk_buf = (0..n).map(|i| pay(me.stream, dir, me.roff + i)).collect();
+                    me.chunk_left = n;
+                }
+                Some(LR::PendingUntil(k)) => {
+                    if me.wait(k, cx) {
+                        me.ri += 1;
+                    } else {
+                        return Poll::Pending;
+                    }
+                }
+                Some(LR::Eof) => {
+                    me.log.app(AppEv::LocalEof { stream: me.stream });
+                    me.log.app(AppEv::Shutdown { stream: me.stream, end: me.spec.end as usize });
+                    return Poll::Ready(Ok(&[]));
+                }
+                Some(LR::Err) => {
+                    me.log.app(AppEv::LocalErr { stream: me.stream, op: "read".into(), kind: "ConnectionAborted".into() });
+                    return Poll::Ready(Err(Self::io_err("scripted read error")));
+                }
+            }
+        }
+    }
+    fn consume(self: Pin<&mut Self>, amt: usize) {
+        let me = self.get_mut();
+        let amt = amt.min(me.chunk_left);
+        me.chunk_left -= amt;
+        me.roff += amt;
+        if amt > 0 {
+            // bytes handed to the bridge for transmission
+            me.log.app(AppEv::WriteOk { stream: me.stream, end: me.spec.end as usize, n: amt, vectored: false, empty: false });
+        }
+    }
+}
+
+impl AsyncWrite for ScriptedLocal {
+    fn poll_write(self: Pin<&mut Self>, cx: &mut std::task::Context<'_>, buf: &[u8]) -> Poll<std::io::Result<usize>> {
+        let me = self.get_mut();
+        let end = me.spec.end as usize;
+        let dir = 1 - end;
+        // everything offered here has been pulled from the stream
+        me.log.app(AppEv::Note(format!("exposed {} {} {}", me.stream, end, me.woff + buf.len())));
+        let step = me.spec.write.get(me.wi).cloned();
+        let n = match step {
+            None => buf.len(),
+            Some(LW::AcceptUpTo(k)) => {
+                me.wi += 1;
+                (k.max(1) as usize).min(buf.len())
+            }
+            Some(LW::PendingUntil(k)) => {
+                if me.wait(k, cx) {
+                    me.wi += 1;
+                    buf.len()
+                } else {
+                    return Poll::Pending;
+                }
+            }
+            Some(LW::Err) => {
+                me.log.app(AppEv::LocalErr { stream: me.stream, op: "write".into(), kind: "ConnectionAborted".into() });
+                return Poll::Ready(Err(Self::io_err("scripted write error")));
+            }
+        };
+        for (i, b) in buf[..n].iter().enumerate() {
+            let want = pay(me.stream, dir, me.woff + i);
+            if *b != want {
+                me.log.app(AppEv::DataMismatch { stream: me.stream, end, offset: me.woff + i, got: *b, want });
+                break;
+            }
+        }
+        me.woff += n;
+        if n > 0 {
+            me.log.app(AppEv::ReadOk { stream: me.stream, end, n });
+        }
+        Poll::Ready(Ok(n))
+    }
+    fn poll_flush(self: Pin<&mut Self>, _cx: &mut std::task::Context<'_>) -> Poll<std::io::Result<()>> {
+        let me = self.get_mut();
+        me.flushes = me.flushes.saturating_add(1);
+        if me.spec.flush_err_at == Some(me.flushes) {
+            me.log.app(AppEv::LocalErr { stream: me.stream, op: "flush".into(), kind: "ConnectionAborted".into() });
+            return Poll::Ready(Err(Self::io_err("scripted flush error")));
+        }
+        Poll::Ready(Ok(()))
+    }
+    fn poll_shutdown(self: Pin<&mut Self>, cx: &mut std::task::Context<'_>) -> Poll<std::io::Result<()>> {
+        let me = self.get_mut();
+        match me.spec.shutdown.clone() {
+            LS::Ok => {
+                me.log.app(AppEv::LocalShutdown { stream: me.stream, result: "ok".into() });
+                Poll::Ready(Ok(()))
+            }
+            LS::Err => {
+                me.log.app(AppEv::LocalErr { stream: me.stream, op: "shutdown".into(), kind: "ConnectionAborted".into() });
+                Poll::Ready(Err(Self::io_err("scripted shutdown error")))
+            }
+            LS::PendingUntil(k) => {
+                if me.wait(k, cx) {
+                    me.log.app(AppEv::LocalShutdown { stream: me.stream, result: "ok".into() });
+                    Poll::Ready(Ok(()))
+                } else {
+                    Poll::Pending
+                }
+            }
+        }
+    }
 }
